@@ -47,13 +47,13 @@ else:
         rc, o = sh("go build ./... && go test -vet=off -count=1 ./... 2>&1 | grep -E '^(--- FAIL|FAIL|panic)'", cwd=os.path.join(wt, m))
         fails += [l for l in o.splitlines() if l.startswith("--- FAIL") or "build failed" in l or l.startswith("panic")]
 res["suite_failures_with"] = fails
-res["suite_ok"] = fails in ([], ["--- FAIL: TestLLMTokensProcessor (0.00s)"])
+res["suite_ok"] = [f.split(" (")[0] for f in fails] in ([], ["--- FAIL: TestLLMTokensProcessor"])
 reset()
 ok = res["applies"] and res["demo_passes_without"] and res["demo_fails_with"] and res["suite_ok"]
 res["confirmed"] = ok
 if ok:
     dst = f"/verif/seeded/{prop}-m{k}"; os.makedirs(dst, exist_ok=True)
     shutil.copy(f"{out}/patch.diff", dst); shutil.copy(demo_src[0], dst)
-    meta["confirmed_by_me"] = {"ran": ["git apply --check", "demo without mutant (pass)", "demo with mutant (fail)", "go build + go test ./... of affected modules with mutant == baseline (only TestLLMTokensProcessor fails)"], "base_commit": "aa12a11"}
+    meta["confirmed_by_me"] = {"ran": ["git apply --check", "demo without mutant (pass)", "demo with mutant (fail)", "go build + go test ./... of affected modules with mutant == baseline (only TestLLMTokensProcessor fails)"], "base_commit": subprocess.run("git rev-parse --short HEAD", shell=True, cwd=wt, capture_output=True, text=True).stdout.strip()}
     json.dump(meta, open(f"{dst}/meta.json", "w"), indent=1)
 print(json.dumps(res))
